@@ -12,6 +12,7 @@ import (
 	"github.com/criyle/go-sandbox/container"
 	"github.com/criyle/go-sandbox/pkg/mount"
 	"github.com/criyle/go-sandbox/pkg/rlimit"
+	"github.com/criyle/go-sandbox/pkg/seccomp"
 	"github.com/criyle/go-sandbox/runner"
 	"golang.org/x/sys/unix"
 	"verif/gate"
@@ -71,6 +72,9 @@ var c10alphabet = []c10op{
 	{"execve-clone-fails", rpcmodel.Op{Kind: rpcmodel.CExecve, StartFail: true}, nil},
 	{"execve-callback-fails", rpcmodel.Op{Kind: rpcmodel.CExecve, SyncFail: true}, nil},
 	{"execve-exec-fails-after-sync", rpcmodel.Op{Kind: rpcmodel.CExecve, ExecFail: true}, nil},
+	// another step the launcher performs after the sync: loading a filter (late, because of the environment's cgroup
+	// option) that the kernel rejects
+	{"execve-filter-rejected-after-sync", rpcmodel.Op{Kind: rpcmodel.CExecve, ExecFail: true}, nil},
 	{"execve-runs", rpcmodel.Op{Kind: rpcmodel.CExecve, SelfExit: true, Cancel: true}, []string{"exit-then-result", "cancel-then-kill", "exit-held-cancel-first", "exited-unreported-kill-first"}},
 	{"execve[sync-after]-start-fails", rpcmodel.Op{Kind: rpcmodel.CExecve, SyncAfter: true, StartFail: true}, nil},
 	{"execve[sync-after]-callback-fails", rpcmodel.Op{Kind: rpcmodel.CExecve, SyncAfter: true, SyncFail: true}, nil},
@@ -87,6 +91,10 @@ type c10env struct {
 	keep string
 }
 
+// c10lateFilter: the environment is built with UnshareCgroupBeforeExec, so that the launcher loads the filter AFTER the
+// synchronisation (a filter the kernel rejects then fails the start after the host was told to go on)
+var c10lateFilter bool
+
 func c10build() (*c10env, error) {
 	ctl, err := gate.New()
 	if err != nil {
@@ -98,6 +106,7 @@ func c10build() (*c10env, error) {
 	c, err := newContainer(func(b *container.Builder) {
 		b.Stderr = ctl.Peer
 		b.Mounts = append(b.Mounts, mount.Mount{Source: keep, Target: "w/keep", Flags: syscall.MS_BIND | syscall.MS_RDONLY | syscall.MS_NOSUID})
+		b.UnshareCgroupBeforeExec = c10lateFilter
 	})
 	if err != nil {
 		container.VerifHook = nil
@@ -257,6 +266,9 @@ func (e *c10env) perform(k int, op c10op, sched string) (class int, said string,
 		if strings.Contains(op.name, "never ends") {
 			p.Args = []string{"/probe/burn", "pause", uniq}
 		}
+	case op.name == "execve-filter-rejected-after-sync":
+		p.Seccomp = seccomp.Filter{{Code: 0xffff}}
+		wantErr = "seccomp"
 	case op.model.ExecFail:
 		p.Args = []string{"/probe/no-such-program-" + uniq}
 		wantErr = "no-such-program-" + uniq
@@ -439,7 +451,14 @@ func init() {
 				x.Failf("C10/model/no-final-state", "script %v: the model never finishes", names)
 			}
 			// ---- implementation: replay on a real container, log → acceptor
+			c10lateFilter = false
+			for _, n := range names {
+				if n == "execve-filter-rejected-after-sync" {
+					c10lateFilter = true
+				}
+			}
 			env, err := c10build()
+			c10lateFilter = false
 			if err != nil {
 				x.Failf("C10/harness", "build: %v", err)
 				return
